@@ -20,6 +20,21 @@ Proof.
   intros HT x y Hx Hy.
   types t HT; range Hx; range Hy;
     unfold add_sat_fallback_m, add_sat_spec, sat, clamp, clamp_m, arith; widths; consts2.
-  all: try (arith_step; rewrite ?cast_eq by (cbn; lia); cbn [bits sgn]; consts; ifs; try lia; f_equal; lia).
-  Show.
+  all: smalls; go; fin.
 Qed.
+
+Lemma div_sat_ok t : WT t -> forall x y, in_ty t x = true -> in_ty t y = true -> y <> 0 ->
+  div_sat_m t x y = Ok (div_sat_spec t x y).
+Proof.
+  intros HT x y Hx Hy Hy0.
+  pose proof (quot_cases x y Hy0) as Hq.
+  unfold div_sat_m, div_sat_spec.
+  set (q := x ÷ y) in *. clearbody q.
+  types t HT; range Hx; range Hy;
+    unfold sat, clamp, arith; widths; consts2;
+    (destruct (Z.eqb_spec y 0) as [?|_]; [contradiction|]); go; fin.
+Qed.
+
+(* the precondition y != 0 is checked *)
+Lemma div_sat_contract t x : div_sat_m t x 0 = Contract.
+Proof. reflexivity. Qed.
